@@ -6,9 +6,15 @@ REG = dict(
         "generator's uniforms replayed from a cloned state) and the code's bands must equal the model built on them",
         "widening with the confidence: proved unconditionally for dkw (dkw_band_widens_with_confidence for 0 <= c <= c' < 1 "
         "with the closed-form radius, dkw_band_widens_up_to_confidence_one including c' = 1, the all-0 / all-1 tables of "
-        "epsilon = +inf); for ks / ld the monotonicity of kstwo.ppf / np.quantile / nestedness of scipy's beta intervals in "
-        "the confidence is not proved: the clause is compared on the code's outputs (same seed) and proved given level-wise "
-        "ordered tables",
+        "epsilon = +inf); proved for both ld methods on the model of the construction (same sorted simulated statistics ts "
+        "in [0,1] for both confidences, critical value = numpy's linear-rule quantile of ts, tables clip([0] ++ lo_k(v)), "
+        "clip(hi_k(v) ++ [1]) with the equal-tailed end points betaQuantile((1 -/+ v)/2) resp. the end points of the "
+        "highest-density region {hdcov <= v}, n >= 2): ld_equal_tailed_band_widens_with_confidence, "
+        "ld_highest_density_band_widens_with_confidence; that np.quantile follows the documented linear rule, that "
+        "scipy's beta.ppf is the Beta quantile and that the code's highest-density search returns the end points of the "
+        "level set is compared (the code's tables against the model per run), not proved; for ks the monotonicity of "
+        "kstwo.ppf in the confidence is not proved: the clause is compared on the code's outputs and proved given "
+        "level-wise ordered tables",
         "IEEE-754 rounding of np.diff / cumsum: compared at 1e-12 (C03's tolerance)",
     ],
     assumptions=["finite observations (infinite bounds allowed)", "quantile levels within 1e-12 of a band level excluded"],
@@ -23,8 +29,15 @@ TEXT = dict(
           "band inversion, any CDF inside the band). Tied to the code per run: all four methods, every band cdf at every atom/"
           "neighbour/midpoint/±inf against the exact model, quantile curves, bracket, pt == EmpiricalDistribution, permutation, "
           "monotone maps, widening. For dkw, raising the confidence never narrows the band is a theorem with no hypothesis "
-          "on the tables (radius sqrt(log(2/(1-c))/(2n)) monotone in c; confidence 1 = the trivial band).",
+          "on the tables (radius sqrt(log(2/(1-c))/(2n)) monotone in c; confidence 1 = the trivial band). For ld_equal_tailed and "
+          "ld_highest_density (same seed, hence the same simulated statistics) it is a theorem on the model of the construction: "
+          "numpy's linear-rule quantile of a fixed sorted sample is non-decreasing in the level (and lies between the smallest and "
+          "largest value), equal-tailed intervals of a non-decreasing quantile function are nested in the coverage (the Beta quantile "
+          "function is constructed and is non-decreasing), highest-density regions {hdcov <= v} are intervals nested in v whose end "
+          "points are the equal-density pair of mass v, and level-wise widening of the tables is widening of the band at every t.",
     note="Proved on the model; the level tables (dkw/ks/ld) are parameters computed by the harness from public helpers. Widening with "
-         "the confidence is unconditional for dkw. Not proved: monotonicity of scipy's quantile black boxes in the confidence "
-         "for ks / ld (compared), float rounding (1e-12).",
+         "the confidence is unconditional for dkw and proved for the two ld methods on the model tables (critical value by numpy's "
+         "documented linear rule, exact Beta quantiles / highest-density level sets). Not proved: that np.quantile, scipy's beta.ppf "
+         "and the code's highest-density search compute those model quantities (compared per run), monotonicity of kstwo.ppf in "
+         "the confidence for ks (compared), float rounding (1e-12).",
 )
